@@ -43,6 +43,76 @@ def single_return(f) -> ast.AST:
     return rets[0].value
 
 
+def _negated_text(c: ast.AST) -> str:
+    if isinstance(c, ast.UnaryOp) and isinstance(c.op, ast.Not):
+        return unparse(c.operand)
+    if isinstance(c, ast.Compare) and len(c.ops) == 1:
+        flip = {ast.Is: ast.IsNot, ast.IsNot: ast.Is, ast.Eq: ast.NotEq, ast.NotEq: ast.Eq, ast.In: ast.NotIn, ast.NotIn: ast.In}.get(type(c.ops[0]))
+        if flip is not None:
+            return unparse(ast.Compare(left=c.left, ops=[flip()], comparators=c.comparators))
+    return f"not {unparse(c)}"
+
+
+def _loop_conjuncts(fn: ast.AST, rt: ast.Return) -> set[str]:
+    from ..astutil import parent_map
+
+    pm = parent_map(fn)
+    out: set[str] = set()
+    node: ast.AST = rt
+    while id(node) in pm:
+        par = pm[id(node)]
+        for fld in ("body", "orelse"):
+            blk = getattr(par, fld, None)
+            if isinstance(blk, list) and node in blk:
+                for prev in blk[: blk.index(node)]:
+                    if isinstance(prev, ast.For) and not prev.orelse and len(prev.body) == 1 and isinstance(prev.body[0], ast.If) and not prev.body[0].orelse:
+                        iff = prev.body[0]
+                        if len(iff.body) == 1 and isinstance(iff.body[0], ast.Return) and isinstance(iff.body[0].value, ast.Constant) and iff.body[0].value.value is False:
+                            out.add(f"all(({_negated_text(iff.test)} for {unparse(prev.target)} in {unparse(prev.iter)}))")
+        node = par
+    return out
+
+
+def accept_conjuncts(f) -> list[str]:
+    """Conditions that hold whenever the boolean function returns a true value: for every accepting return the guard
+    facts of the return plus the conjuncts of the returned expression; the result is the intersection over all accepting
+    returns (texts, negations normalised to `not <expr>`).  Works for `return a and b and c` as well as for guard
+    clauses (`if not a: return False ... return c`)."""
+    sets: list[set[str]] = []
+    for rt in [n for n in walk_local(f.node) if isinstance(n, ast.Return)]:
+        v = rt.value
+        if v is None or (isinstance(v, ast.Constant) and v.value in (False, None)):
+            continue
+        cs: set[str] = set()
+        for t, pol in guard_facts(f.node, rt):
+            if pol:
+                for c in conj_of(t):
+                    cs.add(unparse(c))
+            else:
+                if isinstance(t, ast.UnaryOp) and isinstance(t.op, ast.Not):
+                    for c in conj_of(t.operand):
+                        cs.add(unparse(c))
+                elif isinstance(t, ast.BoolOp) and isinstance(t.op, ast.Or):
+                    for d in disj_of(t):
+                        cs.add(unparse(d.operand) if isinstance(d, ast.UnaryOp) and isinstance(d.op, ast.Not) else f"not {unparse(d)}")
+                elif isinstance(t, ast.Compare) and len(t.ops) == 1 and isinstance(t.ops[0], (ast.Is, ast.IsNot)):
+                    flipped = ast.Compare(left=t.left, ops=[ast.IsNot() if isinstance(t.ops[0], ast.Is) else ast.Is()], comparators=t.comparators)
+                    cs.add(unparse(flipped))
+                else:
+                    cs.add(f"not {unparse(t)}")
+        if not (isinstance(v, ast.Constant) and v.value is True):
+            for c in conj_of(v):
+                cs.add(unparse(c))
+        # universally quantified guard clauses: an earlier `for x in S: if C(x): return False` on the way to this
+        # return contributes `all((not C(x) for x in S))`
+        cs |= _loop_conjuncts(f.node, rt)
+        sets.append(cs)
+    if not sets:
+        raise AnalysisError(f"{f.fq}: no accepting return (predicate shape changed)")
+    out = set.intersection(*sets)
+    return sorted(out)
+
+
 def check_predicate(idx: Index, rep: Report) -> None:
     r = rep.rule("C13.R1", "the removability predicate is the conjunction: all results unused ∧ not a terminator ∧ not a symbol ∧ effects known ∧ every effect is a read or an allocation of a value defined inside the op", floor=10)
 
@@ -55,56 +125,97 @@ def check_predicate(idx: Index, rep: Report) -> None:
 
     f = idx.func(DCE, "is_trivially_dead")
     op = f.node.args.args[0].arg
-    conjs = [unparse(c) for c in conj_of(single_return(f))]
+    conjs = accept_conjuncts(f)
     req(f, conjs, rf"all\(\((\w+)\.first_use is None for \1 in {op}\.results\)\)|all\(\(not (\w+)\.uses for \2 in {op}\.results\)\)|not any\(\((\w+)\.uses for \3 in {op}\.results\)\)", "all-results-unused", "an operation whose result is used would be erased")
     req(f, conjs, rf"would_be_trivially_dead\({op}\)", "would_be_trivially_dead", "terminators / symbols / effectful ops would be erased")
-    if len(conjs) != 2:
-        r.fail(f.fq + ":shape", Finding("C13.R1", f.fq, "extra-conjunct", f"unexpected predicate shape {conjs}", f.loc))
 
     f = idx.func(DCE, "would_be_trivially_dead")
     op = f.node.args.args[0].arg
-    conjs = [unparse(c) for c in conj_of(single_return(f))]
+    conjs = accept_conjuncts(f)
     req(f, conjs, rf"not {op}\.has_trait\(IsTerminator(\(\))?(, value_if_unregistered=False)?\)", "not-terminator", "a terminator would be removed")
     req(f, conjs, rf"not {op}\.has_trait\(SymbolOpInterface(\(\))?(, value_if_unregistered=False)?\)", "not-symbol", "a symbol (function, global) without SSA uses would be removed")
     req(f, conjs, rf"result_only_effects\({op}\)", "result-only-effects", "operations with observable effects would be removed")
-    if len(conjs) != 3:
-        r.fail(f.fq + ":shape", Finding("C13.R1", f.fq, "extra-conjunct", f"unexpected predicate shape {conjs}", f.loc))
 
-    f = idx.func(DCE, "result_only_effects")
+    f = idx.func(DCE, "result_only_effects").as_raw()  # helper predicates are analysed through their alternatives, not inlined
     op = f.node.args.args[0].arg
-    ret = single_return(f)
-    conjs_n = conj_of(ret)
-    conjs = [unparse(c) for c in conjs_n]
+    conjs = accept_conjuncts(f)
     eff_assign = [s for s in f.node.body if isinstance(s, ast.Assign) and unparse(s.value) == f"get_effects({op})"]
     if len(eff_assign) != 1:
         raise AnalysisError(f"{f.fq}: `effects = get_effects(op)` not found")
     ev = unparse(eff_assign[0].targets[0])
     req(f, conjs, rf"{ev} is not None", "effects-known", "unknown effects (None) must mean 'not removable'")
-    alls = [c for c in conjs_n if isinstance(c, ast.Call) and call_attr(c) == "all" and isinstance(c.args[0], ast.GeneratorExp)]
-    if len(alls) != 1 or unparse(alls[0].args[0].generators[0].iter) != ev:
+    alls = []
+    for c in conjs:
+        try:
+            e_ = ast.parse(c, mode="eval").body
+        except SyntaxError:
+            continue
+        if isinstance(e_, ast.Call) and call_attr(e_) == "all" and e_.args and isinstance(e_.args[0], ast.GeneratorExp) and unparse(e_.args[0].generators[0].iter) == ev:
+            alls.append(e_)
+    if len(alls) != 1:
         r.fail(f.fq + ":effects-all", Finding("C13.R1", f.fq, "missing-conjunct:every-effect", "the predicate no longer quantifies over every effect of the operation", f.loc))
     else:
         g = alls[0].args[0]
         e = unparse(g.generators[0].target)
-        alts = disj_of(g.elt)
-        alt_txt = [unparse(a) for a in alts]
-        ok_read = any(t == f"{e}.kind == MemoryEffectKind.READ" or t == f"{e}.kind is MemoryEffectKind.READ" for t in alt_txt)
-        alloc = [a for a in alts if "MemoryEffectKind.ALLOC" in unparse(a)]
-        ok_alloc = False
-        if len(alloc) == 1:
-            ac = [unparse(c) for c in conj_of(alloc[0])]
-            ok_alloc = (
-                any(re.fullmatch(rf"{e}\.kind (==|is) MemoryEffectKind\.ALLOC", c) for c in ac)
-                and any(re.fullmatch(rf"isinstance\(\(?(\w+) := {e}\.value\)?, SSAValue\)|isinstance\({e}\.value, SSAValue\)", c) for c in ac)
-                and any(re.fullmatch(rf"{op}\.is_ancestor\((\w+|{e}\.value)\.owner\)", c) for c in ac)
-                and len(ac) == 3
-            )
-        if ok_read and ok_alloc and len(alts) == 2:
-            r.ok(f.fq + ":effects-all", f"{f.loc} every effect: READ or (ALLOC of an SSA value owned inside the op)")
+        # the per-effect test: an expression, or a call of a module-level predicate whose accepting alternatives are analysed
+        alts_sets: list[set[str]]
+        helper = None
+        if isinstance(g.elt, ast.Call) and isinstance(g.elt.func, ast.Name) and g.elt.func.id in f.module.functions:
+            helper = f.module.functions[g.elt.func.id].as_raw()
+            hp = [a_.arg for a_ in helper.node.args.args]
+            actual = [unparse(a_) for a_ in g.elt.args]
+            ren = dict(zip(hp, actual))
+            alts_sets = []
+            for rt in [n for n in walk_local(helper.node) if isinstance(n, ast.Return)]:
+                v = rt.value
+                if v is None or (isinstance(v, ast.Constant) and v.value in (False, None)):
+                    continue
+                cs = set()
+                for t, pol in guard_facts(helper.node, rt):
+                    cs.add(unparse(t) if pol else _negated_text(t))
+                if not (isinstance(v, ast.Constant) and v.value is True):
+                    cs |= {unparse(c_) for c_ in conj_of(v)}
+                # resolve single-assignment locals (allocated = effect.value) and rename parameters to the actuals
+                hcfg = CFG(helper.node)
+                from ..dataflow import resolved_text
+
+                res = set()
+                for c_ in cs:
+                    try:
+                        n_ = ast.parse(c_, mode="eval").body
+                        t_ = c_
+                        for nm_ in {x.id for x in ast.walk(n_) if isinstance(x, ast.Name)}:
+                            rd = [v_ for _, v_ in __import__("xsa.dataflow", fromlist=["reaching_defs"]).reaching_defs(hcfg, nm_, hcfg.node_of(rt)) if v_ is not None]
+                            if len(rd) == 1 and nm_ not in hp:
+                                t_ = re.sub(rf"\b{nm_}\b", unparse(rd[0]), t_)
+                        for k_, v_ in ren.items():
+                            t_ = re.sub(rf"\b{k_}\b", v_, t_)
+                        res.add(t_)
+                    except SyntaxError:
+                        res.add(c_)
+                alts_sets.append(res)
         else:
-            r.fail(f.fq + ":effects-all", Finding("C13.R1", f.fq, "effect-alternatives", f"the per-effect test is `{unparse(g.elt)[:150]}`; it must admit exactly READ, or ALLOC of an SSA value whose owner is inside the operation", f.loc))
-    if len(conjs) != 2:
-        r.fail(f.fq + ":shape", Finding("C13.R1", f.fq, "extra-conjunct", f"unexpected predicate shape {conjs}", f.loc))
+            alts_sets = [{unparse(c_) for c_ in conj_of(a_)} for a_ in disj_of(g.elt)]
+        READ = {f"{e}.kind == MemoryEffectKind.READ", f"{e}.kind is MemoryEffectKind.READ"}
+
+        def is_read(cs: set[str]) -> bool:
+            return bool(cs & READ) and not any("ALLOC" in c_ and not c_.startswith("not ") and "!=" not in c_ for c_ in cs)
+
+        def is_alloc(cs: set[str]) -> bool:
+            pos = {c_ for c_ in cs if not c_.startswith("not ") and "!= MemoryEffectKind.READ" not in c_}
+            return (
+                any(re.fullmatch(rf"{e}\.kind (==|is) MemoryEffectKind\.ALLOC", c_) for c_ in pos)
+                and any(re.fullmatch(rf"isinstance\(\(?(\w+ := )?{e}\.value\)?, SSAValue\)", c_) for c_ in pos)
+                and any(re.fullmatch(rf"{op}\.is_ancestor\((\w+|{e}\.value)\.owner\)", c_) for c_ in pos)
+            )
+
+        reads = [cs for cs in alts_sets if is_read(cs)]
+        allocs = [cs for cs in alts_sets if is_alloc(cs)]
+        others = [cs for cs in alts_sets if not is_read(cs) and not is_alloc(cs)]
+        if reads and allocs and not others:
+            r.ok(f.fq + ":effects-all", f"{f.loc} every effect: READ or (ALLOC of an SSA value owned inside the op)" + (f" via {helper.name}" if helper else ""))
+        else:
+            r.fail(f.fq + ":effects-all", Finding("C13.R1", f.fq, "effect-alternatives", f"the per-effect test `{unparse(g.elt)[:120]}` must admit exactly READ, or ALLOC of an SSA value whose owner is inside the operation; accepting alternatives found: {[sorted(x)[:4] for x in alts_sets][:4]}", f.loc))
 
     f = idx.func(TRAITS, "get_effects")
     cfg = CFG(f.node)
